@@ -126,10 +126,41 @@ def r20_3_no_structural_block_equality(ctx):
     ctx.require_min("R20.3", 5)
 
 
+TRACEBACK_RETURNS = {"format_stack": "list[str]", "format_list": "list[str]", "format_tb": "list[str]", "format_exception": "list[str]", "format_exc": "str", "extract_stack": "StackSummary", "extract_tb": "StackSummary", "walk_stack": "iterator of frames"}
+
+
+def r20_4_error_text(ctx):
+    ctx.rule("R20.4", "a compile error can be printed: TealCompileError.__str__ joins the definition trace of its expression as strings, so what Expr.__init__ stores as the trace (and what getDefinitionTrace hands out) is a list of strings - produced by a traceback function that returns formatted text")
+    ex = ctx.model.find_class("Expr", "pyteal.ast.expr")
+    init = q.need(ex.methods.get("__init__"), "Expr.__init__ vanished")
+    gdt = q.need(ex.methods.get("getDefinitionTrace"), "Expr.getDefinitionTrace vanished")
+    tce = ctx.model.find_class("TealCompileError", "pyteal.errors")
+    st = q.need(tce.methods.get("__str__"), "TealCompileError.__str__ vanished")
+    ctx.analysed(init.fq, gdt.fq, st.fq)
+    joins = [c for c in ast.walk(st.node) if isinstance(c, ast.Call) and isinstance(c.func, ast.Attribute) and c.func.attr == "join" and isinstance(c.func.value, ast.Constant) and isinstance(c.func.value.value, str)]
+    consumer_needs_text = any("getDefinitionTrace" in q.rtext(st.node, c.args[0]) for c in joins if c.args)
+    rets = q.returns_of(gdt.node)
+    hands_out_trace = len(rets) == 1 and u(rets[0].value) == "self.trace"
+    stores = [n for n in walk_local(init.node) if isinstance(n, ast.Assign) and any(u(t_) == "self.trace" for t_ in n.targets)]
+    if not (consumer_needs_text and hands_out_trace):
+        ctx.ok("R20.4", "trace:consumer", {"joins_trace_as_text": consumer_needs_text, "getDefinitionTrace_returns_self_trace": hands_out_trace}, st.where)
+        return
+    q.need(len(stores) == 1, "Expr.__init__ no longer assigns self.trace exactly once")
+    v = stores[0].value
+    while isinstance(v, ast.Subscript) and isinstance(v.slice, ast.Slice):
+        v = v.value  # a slice of a list is a list of the same elements
+    fn = u(v.func).split(".")[-1] if isinstance(v, ast.Call) else None
+    kind = TRACEBACK_RETURNS.get(fn) if isinstance(v, ast.Call) and u(v.func).startswith("traceback.") else None
+    ok = kind == "list[str]" or (isinstance(v, (ast.List, ast.ListComp)))
+    ctx.check(ok, "R20.4", "Expr.__init__:self.trace", f"self.trace = {u(stores[0].value)} is {kind or 'not a known list of strings'}; TealCompileError.__str__ does \"\".join(trace), which raises TypeError for anything but strings - every compile error that names an expression would die while being printed", init.where, fact={"producer": u(stores[0].value), "kind": kind})
+    ctx.require_min("R20.4", 1)
+
+
 def run(ctx):
     r20_1_obligations(ctx)
     r20_2_successor_recursion(ctx)
     r20_3_no_structural_block_equality(ctx)
+    r20_4_error_text(ctx)
     from rules import c01 as _c01, c10 as _c10, c17 as _c17
 
     _c01.r01_6_root_rebinding(ctx)  # the two graph rewrites that used to trip validateTree's assertion
@@ -142,6 +173,12 @@ def run(ctx):
 
     _c12.r12_1_sites(ctx)  # the constants pass accepts every legal mix of literals, templates and named constants (shared with C12)
     _c03.r03_1_skip_set(ctx)  # a compilation is not rejected because of what an earlier compilation left on a reused options object (shared with C03)
+    from rules import c05 as _c05, c18 as _c18
+    from rules.lowering_sem import r01_3e_constructs
+
+    _c05.r05_4_construct_typing(ctx)  # well-typed constructs (anytype mixed with a concrete type included) are accepted (shared with C05)
+    _c18.r18_5_pragma_ranges(ctx)  # a valid version range never reaches the semver library as text it rejects with ValueError (shared with C18)
+    r01_3e_constructs(ctx)  # every program of the construct family is accepted and lowered (shared with C01)
     return (
         "Exception-escape obligations (asserts and non-PyTeal raises in compile-time code) against a frozen, individually justified table; recursion along block successors; "
         "no structural block comparison on the compile path; the graph-rewrite invariants and acceptance of legal programs by the slot allocator and the definite-assignment walk "
